@@ -283,6 +283,20 @@ MatchFields(fs, o, b, i) ==
     ELSE LET r == MatchPat(fs[i].p, GetKey(o, fs[i].key), b) IN IF ~r.ok THEN r ELSE MatchFields(fs, o, r.b, i + 1)
 
 (* ---- expressions ---------------------------------------------------------------------- *)
+\* declared types of function parameters and results ("any" and "" accept everything; null is accepted everywhere:
+\* requiredness is a different question; a whole float passes for an int - numbers of a JSON body are floats)
+WholeFloat(v) == v.k = "float" /\ Sp(v) = "" /\ TruncMod(v.q, 4) = 0
+ScalarOK(v, ty) == CASE ty \in {"any", ""} -> TRUE
+                     [] v.k = "null" -> TRUE
+                     [] ty \in {"int", "int?"} -> v.k = "int" \/ WholeFloat(v)
+                     [] ty = "float" -> v.k \in {"int", "float"}
+                     [] ty = "str" -> v.k = "str"
+                     [] ty = "bool" -> v.k = "bool"
+                     [] OTHER -> FALSE
+TypeOK_(v, ty) == IF ty = "[int]" THEN v.k = "null" \/ (v.k = "arr" /\ \A i \in 1..Len(v.e) : ScalarOK(v.e[i], "int")) ELSE ScalarOK(v, ty)
+\* an argument for an int parameter that arrives as a whole float becomes that integer
+CoerceArg(v, ty) == IF ty = "int" /\ WholeFloat(v) THEN VInt(TruncDiv(v.q, 4)) ELSE v
+
 RECURSIVE Eval(_, _), EvalSeq(_, _, _), EvalFields(_, _, _), ExecBlock(_, _, _, _), EvalCases(_, _, _, _), Each(_, _, _, _, _), SortCmp(_, _, _)
 \* A settled future: the outcome of the block, which ran on a snapshot of the scopes visible where it was
 \* spawned.  Blocks communicate with their parent only through await, so the outcome does not depend on
@@ -348,16 +362,24 @@ Eval(e, sc) ==
                  IF S = {} THEN Err("undefined")
                  ELSE IF Defined(sc, e.fn) THEN Err("type")      \* a variable of that name is in the way: not a function
                  ELSE LET f == fs[CHOOSE i \in S : TRUE] IN
-                      IF Len(av.v) > Len(f.params) THEN Err("type")        \* too many arguments; missing ones are null
+                      LET np == Len(f.params)
+                          pt == f.ptypes
+                          needed == Cardinality({i \in 1..np : pt[i].req /\ ~pt[i].hasdef}) IN
+                      IF Len(av.v) > np \/ Len(av.v) < needed THEN Err("type")        \* too many arguments, or fewer than the required ones
+                      ELSE IF \E i \in 1..np : i > Len(av.v) /\ pt[i].req /\ ~pt[i].hasdef THEN Err("type")     \* a required one is among the missing
                       ELSE IF CallDepth(sc) >= MaxCalls THEN Err("limit")      \* calls nested deeper than the model follows
-                      ELSE LET scope == ("%depth" :> VInt(CallDepth(sc) + 1)) @@
-                                        [n \in {f.params[i] : i \in 1..Len(f.params)} |->
-                                          LET i == CHOOSE j \in 1..Len(f.params) : f.params[j] = n IN IF i <= Len(av.v) THEN av.v[i] ELSE VNull]
-                               \* lexical scoping: the body sees its parameters and its own variables, never the caller's
-                               r == ExecBlock(f.body, <<GlobalFrame, scope>>, MaxFuel, 1) IN
-                           CASE r.ctl = "error" -> Err(r.val)
-                             [] r.ctl \in {"return", "next"} -> (IF r.st # 200 THEN Err("UNREP") ELSE Ok(r.val))
-                             [] OTHER -> Err("loopctl")
+                      ELSE LET \* given, else the default, else null; a whole float given for an int parameter becomes the integer
+                               bound == [i \in 1..np |-> IF i <= Len(av.v) THEN CoerceArg(av.v[i], pt[i].ty) ELSE IF pt[i].hasdef THEN pt[i].def ELSE VNull]
+                               scope == ("%depth" :> VInt(CallDepth(sc) + 1)) @@
+                                        [n \in {f.params[i] : i \in 1..np} |-> bound[CHOOSE j \in 1..np : f.params[j] = n]] IN
+                           IF \E i \in 1..np : ~TypeOK_(bound[i], pt[i].ty) THEN Err("type")
+                           ELSE LET \* lexical scoping: the body sees its parameters and its own variables, never the caller's
+                                    r == ExecBlock(f.body, <<GlobalFrame, scope>>, MaxFuel, 1) IN
+                                CASE r.ctl = "error" -> Err(r.val)
+                                  [] r.ctl \in {"return", "next"} -> (IF r.st # 200 THEN Err("UNREP")
+                                                                       ELSE IF ~TypeOK_(r.val, f.ret) THEN Err("type")      \* the declared result type
+                                                                       ELSE Ok(r.val))
+                                  [] OTHER -> Err("loopctl")
       [] e.e = "pipe" ->      \* x |> f(a, ...) is f(x, a, ...): the value on the left is the first argument
             Eval([e |-> "fcall", fn |-> e.fn, as |-> <<e.x>> \o e.as], sc)
       [] e.e = "callh" ->     \* array builtins; those that take a function are given the name of one the module declares
@@ -805,8 +827,11 @@ SrcCases(cs, n, i) == IF i > Len(cs) THEN ""
 Src(p) == SrcB(p.body, 1, 1)
 \* the module's functions, written before the route: ! name(a: any, b: any) { body }
 RECURSIVE SrcParams(_, _), SrcFuncs(_, _)
-SrcParams(ps, i) == IF i > Len(ps) THEN "" ELSE ps[i] \o ": any" \o (IF i < Len(ps) THEN ", " ELSE "") \o SrcParams(ps, i + 1)
-SrcFuncs(fs, i) == IF i > Len(fs) THEN "" ELSE "! " \o fs[i].name \o "(" \o SrcParams(fs[i].params, 1) \o ") {\n" \o SrcB(fs[i].body, 1, 1) \o "}\n\n" \o SrcFuncs(fs, i + 1)
+SrcParams(f, i) == IF i > Len(f.params) THEN ""
+                   ELSE f.params[i] \o ": " \o f.ptypes[i].ty \o (IF f.ptypes[i].req THEN "!" ELSE "") \o (IF f.ptypes[i].hasdef THEN " = " \o SrcV(f.ptypes[i].def) ELSE "")
+                        \o (IF i < Len(f.params) THEN ", " ELSE "") \o SrcParams(f, i + 1)
+SrcFuncs(fs, i) == IF i > Len(fs) THEN ""
+                   ELSE "! " \o fs[i].name \o "(" \o SrcParams(fs[i], 1) \o ")" \o (IF fs[i].ret = "" THEN "" ELSE ": " \o fs[i].ret) \o " {\n" \o SrcB(fs[i].body, 1, 1) \o "}\n\n" \o SrcFuncs(fs, i + 1)
 RECURSIVE SrcConsts(_, _)
 SrcConsts(cs, i) == IF i > Len(cs) THEN "" ELSE "const " \o cs[i].n \o " = " \o SrcV(cs[i].v) \o "\n" \o (IF i = Len(cs) THEN "\n" ELSE "") \o SrcConsts(cs, i + 1)
 Pre(p) == SrcConsts(p.consts, 1) \o SrcFuncs(p.funcs, 1)
